@@ -50,9 +50,32 @@ def load_corpus(root, prop):
     return cases
 
 
+def global_left(c):
+    """seconds left of the check's overall budget for playing cases against the real services (all calls together)"""
+    import time
+    if not hasattr(c, "_play_deadline"):
+        c._play_deadline = time.time() + (1500 if getattr(c, "tier", "quick") == "thorough" else 360)
+    return c._play_deadline - time.time()
+
+
+def crash_reason(err):
+    """one line for a case that killed (or hung) the harness process"""
+    if "HANG" in err:
+        return "service stopped answering: the case, its probe or the shutdown of the service did not finish (hang of the real service)"
+    if err == "TIMEOUT":
+        return "service stopped answering: the harness did not finish within its time budget"
+    return "sanitizer abort / crash of the real service: " + " ".join(l.strip() for l in err.splitlines() if "ERROR" in l or "runtime error" in l)[:300]
+
+
 def run_impl(c, hbin, cases, chunk=400):
-    """play the cases (restarting the harness after a sanitizer abort); fills .out/.d; returns
-    (http parameters, list of (case, stderr) for cases that killed the process)"""
+    """play the cases (restarting the harness after a sanitizer abort or a hang); fills .out/.d; returns
+    (http parameters, list of (case, stderr) for cases that killed the process).  Hard limits: every harness run has a
+    timeout, and after `budget` seconds or 6 dead harness processes the remaining cases are abandoned (reported in the
+    evidence); a check never waits for a service that hangs."""
+    import time
+    t_start = time.time()
+    budget = global_left(c)
+    deaths = 0
     prelude = []
     for api in APIS:
         prelude += [f"setprobe {api} hc {hx(PROBE[api])}", f"probe {api}"]
@@ -60,8 +83,14 @@ def run_impl(c, hbin, cases, chunk=400):
     hp = None
     i = 0
     while i < len(cases):
+        left = budget - (time.time() - t_start)
+        if left <= 0 or deaths >= 6:
+            c.extra_cov["abandoned_cases"] = c.extra_cov.get("abandoned_cases", 0) + len(cases) - i
+            for x in cases[i:]:
+                x.d = None
+            break
         batch = cases[i:i + chunk]
-        rc, out, err = c.run_lines(hbin, prelude + [x.line() for x in batch], timeout=3000)
+        rc, out, err = c.run_lines(hbin, prelude + [x.line() for x in batch], timeout=max(90, min(600, left + 60)))
         hp = None
         if len(out) >= 6:
             try:
@@ -89,6 +118,7 @@ def run_impl(c, hbin, cases, chunk=400):
             bad.out = "<harness died>"
             bad.d = None
             crashes.append((bad, err[-3500:]))
+            deaths += 1
             i += len(got) + 1
         else:
             i += len(batch)
@@ -198,7 +228,10 @@ def run_fwd(c, hbin, cases):
     prelude = [f"setprobe fwd hc {hx(FWD_PROBE)}", "probe fwd"]
     while i < len(cases):
         batch = cases[i:i + 300]
-        rc, out, err = c.run_lines(hbin, prelude + [x.line() for x in batch], timeout=3000)
+        if global_left(c) <= 0:
+            c.extra_cov["abandoned_cases"] = c.extra_cov.get("abandoned_cases", 0) + len(cases) - i
+            break
+        rc, out, err = c.run_lines(hbin, prelude + [x.line() for x in batch], timeout=max(90, min(600, global_left(c) + 60)))
         got = out[2:]
         for x, o in zip(batch, got):
             x.out = o; x.d = parse_out_line(o)
@@ -261,6 +294,9 @@ def confirm_soft(c, hbin, model, bad, judge, attempts=3):
     for item in soft[:40]:
         x = item[0]
         again = None
+        if global_left(c) <= 0:
+            # no time left to re-play: the failure stands as observed
+            confirmed.append((x, item[1] + " (not re-played: time budget exhausted)")); continue
         for _ in range(attempts):
             y = clone_case(x)
             hp, crashes = run_impl(c, hbin, [y])
